@@ -8,56 +8,124 @@ theorem iter_succ' (f : σ → σ) (n : Nat) (x : σ) : iter f (n + 1) x = f (it
   | zero => rfl
   | succ n ih => simp only [iter] at ih ⊢; exact ih (f x)
 
-/-- with a copying loop, success at `n` means: the first small consecutive difference is the `n`-th -/
-theorem ssLoop_copy_steady (step : σ → σ) (small : σ → σ → Bool) :
+/-- with a copying, checking loop, success at `n` means: the first small consecutive difference is the `n`-th, and
+the solver was successful at every step up to there -/
+theorem ssLoop_copy_steady (step : σ → σ) (ok : σ → Bool) (small : σ → σ → Bool) :
     ∀ (fuel i : Nat) (y : σ) (n : Nat) (r : σ),
-      ssLoop true step small fuel i (.val y) y = .steady n r →
+      ssLoop true true step ok small fuel i (.val y) y = .steady n r →
       ∃ m, m < fuel ∧ n = i + m + 1 ∧ r = iter step (m + 1) y ∧
         small (iter step (m + 1) y) (iter step m y) = true ∧
-        ∀ j, j < m → small (iter step (j + 1) y) (iter step j y) = false := by
+        (∀ j, j < m → small (iter step (j + 1) y) (iter step j y) = false) ∧
+        (∀ j, j ≤ m → ok (iter step (j + 1) y) = true) := by
   intro fuel
   induction fuel with
   | zero => intro i y n r h; simp [ssLoop] at h
   | succ fuel ih =>
     intro i y n r h
-    simp only [ssLoop] at h
-    by_cases hs : small (step y) y = true
-    · simp only [hs, if_true] at h
-      injection h with h1 h2
-      exact ⟨0, Nat.succ_pos _, by omega, by simp [iter, h2], by simpa [iter] using hs, by intro j hj; omega⟩
-    · simp only [hs] at h
-      obtain ⟨m, hm, hn, hr, hsm, hall⟩ := ih (i + 1) (step y) n r h
-      refine ⟨m + 1, by omega, by omega, by simpa [iter] using hr, by simpa [iter] using hsm, ?_⟩
-      intro j hj
-      cases j with
-      | zero => simpa [iter] using hs
-      | succ j => simpa [iter] using hall j (by omega)
+    simp only [ssLoop, Bool.true_and] at h
+    by_cases hk : ok (step y) = true
+    · simp only [hk, Bool.not_true, Bool.false_eq_true, if_false] at h
+      by_cases hs : small (step y) y = true
+      · simp only [hs, if_true] at h
+        injection h with h1 h2
+        refine ⟨0, Nat.succ_pos _, by omega, by simp [iter, h2], by simpa [iter] using hs, by intro j hj; omega, ?_⟩
+        intro j hj
+        have : j = 0 := by omega
+        subst this
+        simpa [iter] using hk
+      · simp only [hs] at h
+        obtain ⟨m, hm, hn, hr, hsm, hall, hok⟩ := ih (i + 1) (step y) n r h
+        refine ⟨m + 1, by omega, by omega, by simpa [iter] using hr, by simpa [iter] using hsm, ?_, ?_⟩
+        · intro j hj
+          cases j with
+          | zero => simpa [iter] using hs
+          | succ j => simpa [iter] using hall j (by omega)
+        · intro j hj
+          cases j with
+          | zero => simpa [iter] using hk
+          | succ j => simpa [iter] using hok j (by omega)
+    · have hk' : ok (step y) = false := by simpa using hk
+      simp [hk'] at h
 
-theorem ssLoop_copy_none (step : σ → σ) (small : σ → σ → Bool) :
+theorem ssLoop_copy_none (step : σ → σ) (ok : σ → Bool) (small : σ → σ → Bool) :
     ∀ (fuel i : Nat) (y : σ),
-      ssLoop true step small fuel i (.val y) y = .noSteadyState ↔
-      ∀ m, m < fuel → small (iter step (m + 1) y) (iter step m y) = false := by
+      ssLoop true true step ok small fuel i (.val y) y = .noSteadyState ↔
+      ∀ m, m < fuel → ok (iter step (m + 1) y) = true ∧ small (iter step (m + 1) y) (iter step m y) = false := by
   intro fuel
   induction fuel with
   | zero => intro i y; simp [ssLoop]
   | succ fuel ih =>
     intro i y
-    simp only [ssLoop]
-    by_cases hs : small (step y) y = true
-    · simp only [hs, if_true]
+    simp only [ssLoop, Bool.true_and]
+    by_cases hk : ok (step y) = true
+    · simp only [hk, Bool.not_true, Bool.false_eq_true, if_false]
+      by_cases hs : small (step y) y = true
+      · simp only [hs, if_true]
+        constructor
+        · intro h; cases h
+        · intro h; have := (h 0 (Nat.succ_pos _)).2; simp [iter, hs] at this
+      · have hs' : small (step y) y = false := by simpa using hs
+        simp only [hs', Bool.false_eq_true, if_false, if_true]
+        rw [ih (i + 1) (step y)]
+        constructor
+        · intro h m hm
+          cases m with
+          | zero => exact ⟨by simpa [iter] using hk, by simpa [iter] using hs⟩
+          | succ m => simpa [iter] using h m (by omega)
+        · intro h m hm
+          simpa [iter] using h (m + 1) (by omega)
+    · have hk' : ok (step y) = false := by simpa using hk
+      simp only [hk', Bool.not_false, if_true]
       constructor
       · intro h; cases h
-      · intro h; have := h 0 (Nat.succ_pos _); simp [iter, hs] at this
-    · have hs' : small (step y) y = false := by simpa using hs
-      simp only [hs', Bool.false_eq_true, if_false, if_true]
-      rw [ih (i + 1) (step y)]
+      · intro h; have := (h 0 (Nat.succ_pos _)).1; simp [iter, hk'] at this
+
+/-- the loop stops with `IntegrationFailure` exactly when the solver gives up at some step within the budget before
+any consecutive difference was small -/
+theorem ssLoop_copy_failure (step : σ → σ) (ok : σ → Bool) (small : σ → σ → Bool) :
+    ∀ (fuel i : Nat) (y : σ),
+      ssLoop true true step ok small fuel i (.val y) y = .integrationFailure ↔
+      ∃ m, m < fuel ∧ ok (iter step (m + 1) y) = false ∧
+        ∀ j, j < m → ok (iter step (j + 1) y) = true ∧ small (iter step (j + 1) y) (iter step j y) = false := by
+  intro fuel
+  induction fuel with
+  | zero => intro i y; simp [ssLoop]
+  | succ fuel ih =>
+    intro i y
+    simp only [ssLoop, Bool.true_and]
+    by_cases hk : ok (step y) = true
+    · simp only [hk, Bool.not_true, Bool.false_eq_true, if_false]
+      by_cases hs : small (step y) y = true
+      · simp only [hs, if_true]
+        constructor
+        · intro h; cases h
+        · rintro ⟨m, hm, hko, hall⟩
+          cases m with
+          | zero => simp [iter, hk] at hko
+          | succ m => have := (hall 0 (Nat.succ_pos _)).2; simp [iter, hs] at this
+      · have hs' : small (step y) y = false := by simpa using hs
+        simp only [hs', Bool.false_eq_true, if_false, if_true]
+        rw [ih (i + 1) (step y)]
+        constructor
+        · rintro ⟨m, hm, hko, hall⟩
+          refine ⟨m + 1, by omega, by simpa [iter] using hko, ?_⟩
+          intro j hj
+          cases j with
+          | zero => exact ⟨by simpa [iter] using hk, by simpa [iter] using hs'⟩
+          | succ j => simpa [iter] using hall j (by omega)
+        · rintro ⟨m, hm, hko, hall⟩
+          cases m with
+          | zero => simp [iter, hk] at hko
+          | succ m =>
+            refine ⟨m, by omega, by simpa [iter] using hko, ?_⟩
+            intro j hj
+            simpa [iter] using hall (j + 1) (by omega)
+    · have hk' : ok (step y) = false := by simpa using hk
+      simp only [hk', Bool.not_false, if_true]
       constructor
-      · intro h m hm
-        cases m with
-        | zero => simpa [iter] using hs
-        | succ m => simpa [iter] using h m (by omega)
-      · intro h m hm
-        simpa [iter] using h (m + 1) (by omega)
+      · intro _
+        exact ⟨0, Nat.succ_pos _, by simpa [iter] using hk', by intro j hj; omega⟩
+      · intro _; trivial
 
 theorem vsub_add_self : ∀ (y d : List Rat), y.length = d.length →
     vsub (List.zipWith (· + ·) y d) y = d := by
